@@ -212,10 +212,11 @@ class Engine(EngineBase):
                 # ... with exactly as many ids as the source has jobs
                 opts["selection"] = sorted(rng.sample(pool, min(len(pool), len(src_jobs))))
         precrash = None
-        if P in ("C13", "C14") and not opts["dry_run"] and not opts["parallel"] and rng.random() < 0.2:
-            # debris of an earlier, crashed run of the same sync: [position in its trace, prefer the
-            # document window?]
-            precrash = [rng.random(), rng.random() < 0.6]
+        if ((P in ("C13", "C14") and not opts["dry_run"]) or (P == "C15" and opts["dry_run"])) \
+                and not opts["parallel"] and rng.random() < 0.2:
+            # debris of an earlier, crashed run of the same sync (a real run, also where the scenario's own
+            # call is a dry run): [position in its trace, prefer the document window?]
+            precrash = [rng.random(), rng.random() < (0.6 if P != "C15" else 0.85)]
         entry = rng.choice(["Project.sync", "Project.sync", "sync_projects", "Job.sync", "sync_jobs"])
         pair = None
         if entry in ("Job.sync", "sync_jobs"):
@@ -633,7 +634,7 @@ class Run:
         frac, prefer_doc = self.sc["precrash"]
         pre = snapshot(world.root, mtimes=True)
         src0 = snapshot(sp_, mtimes=True)
-        status, info = run_op(world, lambda: self.call(sp_, dp_, o), FaultPlan(), timeout=50.0)
+        status, info = run_op(world, lambda: self.call(sp_, dp_, o, dry_run=False), FaultPlan(), timeout=50.0)
         with world.observing():
             restore(world.root, pre)
         if status != "ok":
@@ -645,8 +646,8 @@ class Run:
             self.probe("precrash_nothing_to_interrupt")
             return True
         k = pool[min(len(pool) - 1, int(frac * len(pool)))][0]
-        status, info = run_op(world, lambda: self.call(sp_, dp_, o), FaultPlan([{"step": k, "kind": "crash"}]),
-                              timeout=50.0)
+        status, info = run_op(world, lambda: self.call(sp_, dp_, o, dry_run=False),
+                              FaultPlan([{"step": k, "kind": "crash"}]), timeout=50.0)
         if status != "crash":
             raise RuntimeError(f"pre-crash run did not die at step {k}: {status}")
         world.clock_ms = max(world.clock_ms, info.get("clock_ms", 0))
